@@ -283,6 +283,15 @@ func init() {
 			}
 			return fr.th.eng.pool.BV(uint64(n), 64)
 		},
+		"vrtLiveGoroutines": func(fr *frame, a []Value) Value {
+			n := 0
+			for _, t := range fr.th.eng.threads {
+				if !t.finished {
+					n++
+				}
+			}
+			return fr.th.eng.pool.BV(uint64(n), 64)
+		},
 		// harness clock (ns): vrtClock() reads, vrtClockSet(ns) sets; time.Now() returns it
 		"vrtClock": func(fr *frame, a []Value) Value { return fr.th.eng.clock },
 		"vrtClockSet": func(fr *frame, a []Value) Value {
